@@ -13,7 +13,7 @@ ASSUMPTIONS = [
     "rows of pack2 output beyond the packed length are unspecified and not compared",
     "numpy (own bundled OpenBLAS) is the reference linear algebra",
 ]
-REQUIRED_COUNTERS = ["scale.trailing-rows.multicolumn-s-block", "max_step.block-exactly-on-boundary.not-last", "kernel.scale", "kernel.scale2", "kernel.pack", "kernel.pack2", "kernel.unpack",
+REQUIRED_COUNTERS = ["max_step.sigma-None-explicit", "max_step.beyond-float-range", "scale.trailing-rows.multicolumn-s-block", "max_step.block-exactly-on-boundary.not-last", "kernel.scale", "kernel.scale2", "kernel.pack", "kernel.pack2", "kernel.unpack",
                      "kernel.sdot", "kernel.snrm2", "kernel.sgemv", "kernel.trisc", "kernel.triusc",
                      "kernel.symm", "kernel.sprod", "kernel.ssqr", "kernel.sinv", "kernel.max_step",
                      "kernel.jdot", "kernel.jnrm2", "impl.C", "impl.py"]
@@ -564,11 +564,21 @@ def run(ctx):
                 ctx.count("max_step.block-exactly-on-boundary")
                 if (k_, st_, m_) != blks[-1]: ctx.count("max_step.block-exactly-on-boundary.not-last")
                 flags += "bd"
+            elif N and rng.random() < 0.08:
+                # magnitudes beyond the single-precision range (the result is a double)
+                xv = xv * rng.choice([1e39, 1e100, 1e150])
+                ctx.count("max_step.beyond-float-range")
+                flags += "hg"
+            explicit_none = (not with_sigma) and rng.random() < 0.3      # sigma=None is the documented default value
+            if explicit_none: ctx.count("max_step.sigma-None-explicit")
             want = -cone.margin(xv, dims)
             if want == -math.inf:
                 want = 0.0
             def call(mod):
                 x = to_matrix(xv) if N else matrix(0.0, (0, 1))
+                if explicit_none:
+                    t = mod.max_step(x, dd, mnl, None)
+                    return {"t": np.array([t]), "x": vec(x), "sigma": None}
                 if with_sigma:
                     sg = matrix(PAT, (sum(dims.s) + 1, 1))
                     t = mod.max_step(x, dd, mnl, sg)
